@@ -730,7 +730,13 @@ fn phases() -> Vec<Phase> {
             v.push(Phase { name: format!("{name}:{}", if drip { "drip" } else { "silent" }), before: before.clone(), drip, timeout_ms: Some(600), read_timeout_ms: 20_000, upload: false, via_connect: false, hops: 0, hop_delay_ms: 0, direct_tls: false });
         }
         v.push(Phase { name: format!("{name}:read-timeout-only"), before: before.clone(), drip: false, timeout_ms: None, read_timeout_ms: 300, upload: false, via_connect: false, hops: 0, hop_delay_ms: 0, direct_tls: false });
+        // both set, the read timeout the shorter one: a silent peer ends the call after the read
+        // timeout, not after the (far) overall timeout
+        if ["no-reply", "after-head", "inside-chunk", "close-body"].contains(name) {
+            v.push(Phase { name: format!("{name}:read-timeout-under-far-deadline"), before: before.clone(), drip: false, timeout_ms: Some(5000), read_timeout_ms: 300, upload: false, via_connect: false, hops: 0, hop_delay_ms: 0, direct_tls: false });
+        }
     }
+    v.push(Phase { name: "connect-no-reply:read-timeout-under-far-deadline".into(), before: vec![], drip: false, timeout_ms: Some(5000), read_timeout_ms: 300, upload: false, via_connect: true, hops: 0, hop_delay_ms: 0, direct_tls: false });
     v.push(Phase { name: "upload-not-read".into(), before: vec![], drip: false, timeout_ms: Some(600), read_timeout_ms: 20_000, upload: true, via_connect: false, hops: 0, hop_delay_ms: 0, direct_tls: false });
     v.push(Phase { name: "connect-no-reply".into(), before: vec![], drip: false, timeout_ms: Some(600), read_timeout_ms: 20_000, upload: false, via_connect: true, hops: 0, hop_delay_ms: 0, direct_tls: false });
     v.push(Phase { name: "connect-mid-head".into(), before: b"HTTP/1.1 200 Connec".to_vec(), drip: false, timeout_ms: Some(600), read_timeout_ms: 20_000, upload: false, via_connect: true, hops: 0, hop_delay_ms: 0, direct_tls: false });
@@ -814,7 +820,7 @@ fn run_phase(p: &Phase) -> (Duration, String, Option<(String, String)>) {
     let elapsed = t0.elapsed();
     stop.store(true, std::sync::atomic::Ordering::SeqCst);
     let _ = server.join();
-    let limit = Duration::from_millis(p.timeout_ms.unwrap_or(p.read_timeout_ms) + 2000);
+    let limit = Duration::from_millis(p.timeout_ms.unwrap_or(u64::MAX).min(p.read_timeout_ms) + 2000);
     let outcome = match &res {
         Err(p) => format!("panic: {p}"),
         Ok(Ok(s)) => format!("Ok: {s}"),
@@ -839,12 +845,26 @@ fn extra_timing_cases() -> Vec<(String, Option<(String, String)>)> {
         RetryThenEof,
         DropEarly,
         DropUnread,
+        /// a prepared request first sent, and sent again, long after it was prepared
+        PreparedLate,
     }
     let run = |kind: Kind| -> (String, Option<(String, String)>) {
         let listener = TcpListener::bind("127.0.0.1:0").unwrap();
         let port = listener.local_addr().unwrap().port();
         let (tx, rx) = std::sync::mpsc::channel::<Duration>();
         let server = std::thread::spawn(move || {
+            if kind == Kind::PreparedLate {
+                // a prompt server: answers two exchanges at once
+                for _ in 0..2 {
+                    if let Ok((mut s, _)) = listener.accept() {
+                        let mut buf = [0u8; 2048];
+                        let _ = s.set_read_timeout(Some(Duration::from_secs(5)));
+                        let _ = s.read(&mut buf);
+                        let _ = s.write_all(b"HTTP/1.1 200 OK\r\nContent-Length: 2\r\n\r\nok");
+                    }
+                }
+                return;
+            }
             let (mut s, _) = match listener.accept() {
                 Ok(x) => x,
                 Err(_) => return,
@@ -858,6 +878,7 @@ fn extra_timing_cases() -> Vec<(String, Option<(String, String)>)> {
                 let _ = s.write_all(b"HTTP/1.1 200 OK\r\nServer: lab\r\n\r\nabc");
             }
             match kind {
+                Kind::PreparedLate => {}
                 Kind::ZeroTimeout => {
                     let _ = s.read(&mut buf);
                     std::thread::sleep(Duration::from_secs(4));
@@ -945,6 +966,20 @@ fn extra_timing_cases() -> Vec<(String, Option<(String, String)>)> {
                     other => viol = Some(("retrying-caller".to_string(), format!("send() = {other:?}"))),
                 }
             }
+            Kind::PreparedLate => {
+                name = "prepared-request-sent-late".to_string();
+                let mut prepared = attohttpc::get(&url).timeout(Duration::from_millis(500)).read_timeout(Duration::from_secs(5)).prepare();
+                std::thread::sleep(Duration::from_millis(800));
+                let first = guarded(|| prepared.send().and_then(|r| r.bytes()));
+                std::thread::sleep(Duration::from_millis(600));
+                let second = guarded(|| prepared.send().and_then(|r| r.bytes()));
+                for (which, res) in [("first send() 0.8 s after prepare()", &first), ("second send() 0.6 s after the first", &second)] {
+                    if !matches!(res, Ok(Ok(b)) if b == b"ok") && viol.is_none() {
+                        let sig = if format!("{res:?}").contains("TimedOut") { "timeout-reported-before-deadline" } else { "retrying-caller" };
+                        viol = Some((sig.to_string(), format!("timeout(500 ms) on a prepared request, prompt server: {which} = {}", format!("{res:?}").chars().take(140).collect::<String>())));
+                    }
+                }
+            }
             Kind::DropEarly | Kind::DropUnread => {
                 name = if kind == Kind::DropEarly { "drop-after-partial-read".to_string() } else { "drop-unread".to_string() };
                 let res = guarded(|| attohttpc::get(&url).timeout(Duration::from_secs(6)).read_timeout(Duration::from_secs(20)).send());
@@ -972,7 +1007,7 @@ fn extra_timing_cases() -> Vec<(String, Option<(String, String)>)> {
         drop(server);
         (name, viol)
     };
-    let kinds = [Kind::ZeroTimeout, Kind::RetryDrip, Kind::RetryThenEof, Kind::DropEarly, Kind::DropUnread];
+    let kinds = [Kind::ZeroTimeout, Kind::RetryDrip, Kind::RetryThenEof, Kind::DropEarly, Kind::DropUnread, Kind::PreparedLate];
     std::thread::scope(|sc| {
         let hs: Vec<_> = kinds.iter().map(|k| sc.spawn(move || run(*k))).collect();
         hs.into_iter().map(|h| h.join().unwrap()).collect()
@@ -984,7 +1019,7 @@ fn extra_timing_cases() -> Vec<(String, Option<(String, String)>)> {
 // every other one, whatever the (larger) connect timeout, for an address literal, a name with one
 // address, a name with several, a proxy, and the target of a redirect.
 //
-pub const CONNECT_STALL_KINDS: [&str; 5] = ["ip-literal", "one-address-name", "two-address-name", "proxy", "redirect-target"];
+pub const CONNECT_STALL_KINDS: [&str; 6] = ["ip-literal", "one-address-name", "two-address-name", "six-address-name", "proxy", "redirect-target"];
 
 fn connect_stall_cases() -> Vec<(String, Option<(String, String)>, bool)> {
     let run = |kind: &'static str| -> (String, Option<(String, String)>, bool) {
@@ -993,14 +1028,20 @@ fn connect_stall_cases() -> Vec<(String, Option<(String, String)>, bool)> {
             Some(h) => h,
             None => return (name, None, false),
         };
-        let hole2 = if kind == "two-address-name" {
+        // further unresponsive addresses of the same name (attempts start 200 ms apart; every one of
+        // them ends at the deadline)
+        let mut more_holes = Vec::new();
+        let n_more = match kind {
+            "two-address-name" => 1,
+            "six-address-name" => 5,
+            _ => 0,
+        };
+        for _ in 0..n_more {
             match crate::c17::black_hole(false) {
-                Some(h) => Some(h),
+                Some(h) => more_holes.push(h),
                 None => return (name, None, false),
             }
-        } else {
-            None
-        };
+        }
         const T_MS: u64 = 700;
         let base = |url: &str| attohttpc::get(url).timeout(Duration::from_millis(T_MS)).connect_timeout(Duration::from_secs(5)).read_timeout(Duration::from_secs(5));
         let mut server = None;
@@ -1010,8 +1051,10 @@ fn connect_stall_cases() -> Vec<(String, Option<(String, String)>, bool)> {
                 attohttpc::verif::set_resolution("hole.test", Some(vec![hole.addr]));
                 base("http://hole.test:7777/x")
             }
-            "two-address-name" => {
-                attohttpc::verif::set_resolution("hole.test", Some(vec![hole.addr, hole2.as_ref().unwrap().addr]));
+            "two-address-name" | "six-address-name" => {
+                let mut addrs = vec![hole.addr];
+                addrs.extend(more_holes.iter().map(|h| h.addr));
+                attohttpc::verif::set_resolution("hole.test", Some(addrs));
                 base("http://hole.test:7777/x")
             }
             "proxy" => {
@@ -1044,7 +1087,7 @@ fn connect_stall_cases() -> Vec<(String, Option<(String, String)>, bool)> {
             let _ = h.join();
         }
         let shown: String = format!("{res:?}").chars().take(120).collect();
-        let viol = if el > Duration::from_millis(T_MS + 900) {
+        let viol = if el > Duration::from_millis(T_MS + 600) {
             Some(("phase-not-bounded:connect".to_string(), format!("{kind}: the address never answers the connection attempt; T = {T_MS} ms, connect timeout 5 s: send() returned {shown} after {el:?}")))
         } else if !matches!(res, Ok(Err(_))) {
             Some(("phase-not-bounded:connect".to_string(), format!("{kind}: send() = {shown} against an address that never answers")))
@@ -1165,7 +1208,7 @@ pub fn c13(ctx: &Ctx) -> Report {
     rep.set("exhaustive", true);
     rep.set(
         "rule",
-        "Part A: for each scenario (framing x caller script x deadline kind x how much the peer sends and whether it closes) EVERY schedule with at most the stated number of deviations from the canonical order is executed on the real code over a real loopback socket: moves = release the caller thread / the timeout thread at one of the library's schedule points, the peer sends the next segment, the peer closes, the deadline passes; a thread is only released into a blocking call that can complete (reads: data, peer close or local shutdown; the timeout thread's wait: a ping, the sender gone, the deadline). states/transitions = decision points, distinct_nontrivial = distinct vectors of caller-visible results (+ phases). Part B: every protocol phase as stall point x {silent, 1 byte / 50 ms} with T = 600 ms, and the read timeout alone (300 ms), free running with the real clock, bound T + 2 s; the connect phase (an address that never answers the SYN: a listener with a full backlog) for an address literal, a name with one address, a name with two, a proxy and a redirect target, T = 700 ms against a 5 s connect timeout, bound T + 0.9 s.",
+        "Part A: for each scenario (framing x caller script x deadline kind x how much the peer sends and whether it closes) EVERY schedule with at most the stated number of deviations from the canonical order is executed on the real code over a real loopback socket: moves = release the caller thread / the timeout thread at one of the library's schedule points, the peer sends the next segment, the peer closes, the deadline passes; a thread is only released into a blocking call that can complete (reads: data, peer close or local shutdown; the timeout thread's wait: a ping, the sender gone, the deadline). states/transitions = decision points, distinct_nontrivial = distinct vectors of caller-visible results (+ phases). Part B: every protocol phase as stall point x {silent, 1 byte / 50 ms} with T = 600 ms, and the read timeout alone (300 ms), free running with the real clock, bound T + 2 s; the connect phase (an address that never answers the SYN: a listener with a full backlog) for an address literal, a name with one address, a name with two, a name with six (attempts start 200 ms apart and all end at the deadline), a proxy and a redirect target, T = 700 ms against a 5 s connect timeout, bound T + 0.6 s; four stall points with both timeouts set and the read timeout the shorter (300 ms under T = 5 s): the call ends after the read timeout.",
     );
     rep.assume("real time is not virtualised: a far deadline is 60 s away, an expiring one (120 ms) passes when the explorer sleeps past it, and an execution in which real time gets within 40 ms of it earlier is discarded and retried (machinery, never a verdict)");
     rep.assume("server segments are smaller than every client read buffer, so a completed client read drains what the server sent");
